@@ -9,7 +9,7 @@
 //! watchdog. Cases run in worker subprocesses; an abort or hang is attributed to the case in flight
 //! from the worker's progress log and re-run alone to confirm.
 //!
-//! Oracle: every loader returns Ok or Err. No panic, no abort, no hang (10 s), no oversized allocation.
+//! Oracle: every loader returns Ok or Err. No panic, no abort, no hang (60 s), no oversized allocation.
 
 simcore::define_getrandom!();
 
@@ -397,7 +397,7 @@ fn worker(a: &Args) -> i32 {
     std::thread::spawn(move || loop {
         std::thread::sleep(std::time::Duration::from_millis(500));
         let st = CASE_STARTED_MS.load(Ordering::Relaxed);
-        if st != 0 && now_ms().saturating_sub(st) > 10_000 {
+        if st != 0 && now_ms().saturating_sub(st) > 60_000 {
             if let Ok(mut f) = std::fs::OpenOptions::new().append(true).open(&out_path) {
                 let _ = writeln!(f, "H {}", CASE_SEQ.load(Ordering::Relaxed));
             }
@@ -630,7 +630,7 @@ fn check(args: &[String]) -> i32 {
     });
     let doc = serde_json::json!({
         "property_id": "C20", "tier": tier, "seed": seed, "level": "fault_enumeration", "coverage": cov,
-        "assumptions": ["allocation limit per request = 64 MiB + 64 x file length, enforced by a counting GlobalAlloc in the worker (an oversized request aborts the worker and is attributed to the case in flight)", "hang = a single case exceeding 10 s of wall clock in the worker", "images come from INTEGER/VARCHAR histories plus a table covering the other persisted value types"],
+        "assumptions": ["allocation limit per request = 64 MiB + 64 x file length, enforced by a counting GlobalAlloc in the worker (an oversized request aborts the worker and is attributed to the case in flight)", "hang = a single case exceeding 60 s of wall clock in the worker", "images come from INTEGER/VARCHAR histories plus a table covering the other persisted value types"],
         "wall_s": wall, "violations": violations.len(),
     });
     let edir = simcore::evidence::verif_root().join("evidence");
@@ -688,7 +688,7 @@ fn replay_inner(path: &str) -> i32 {
     };
     let dir = tmp_dir();
     std::thread::spawn(|| {
-        std::thread::sleep(std::time::Duration::from_secs(10));
+        std::thread::sleep(std::time::Duration::from_secs(60));
         println!("HANG");
         std::process::exit(3);
     });
